@@ -370,10 +370,9 @@ def checkParams (s : Sig) (args returns : Option (List V)) (isMethod : Bool) : R
   | none => pure ()
   match args with
   | some as =>
-    if isMethod then
-      if as.length + 1 < s.ins.length then rej .argsNotMatch [.argsNotMatch as.length (s.ins.length - 1)]  -- when.go:81
-    else
-      if as.length < s.ins.length then rej .argsNotMatch [.argsNotMatch as.length s.ins.length]          -- when.go:85
+    -- when.go:80-90: parameters without the receiver and, for a variadic function, without the variadic slot
+    let required := s.ins.length - (if isMethod then 1 else 0) - (if s.variadic then 1 else 0)
+    if as.length < required then rej .argsNotMatch [.argsNotMatch as.length required]
   | none => pure ()
 
 /-- the matcher the `When` object holds after `CreateWhen` -/
@@ -687,8 +686,8 @@ def toExprV (args : List V) (types : List Ty) (velem : Ty) : Except ConvErr Unit
     | .error e => .error (.tv e)
 
 /-- expr.go:71-90 `InExpr.Resolve`, one argument of `In(...)`: a `[]interface{}` is a condition list; on a variadic target a
-    BARE argument at index ≥ len(types)-1 is taken for a slice and expanded element-wise (`reflect.ValueOf(v).Len()`, a reflect
-    panic for anything that has no length; the universe's only slice value is `[]int{7}`: one element of the element type); any other bare argument is one condition -/
+    BARE slice (or array) argument at index ≥ len(types)-1 is expanded element-wise (the universe's only slice value is
+    `[]int{7}`: one element of the element type); any other bare argument is one condition -/
 inductive InArg
   | list (vs : List V)
   | bare (v : V)
@@ -699,8 +698,8 @@ def inParam (s : Sig) (isM : Bool) (idx : Nat) : InArg → R (List V)
   | .bare v =>
     if s.variadic && idx + 1 ≥ (inTypes isM s).length then
       match v with
-      | .val t => if t.kind = .slice then pure [.val s.velem] else rReflect   -- (other kinds with a length — string, array, map, chan — are not generated)
-      | _ => rReflect
+      | .val t => if t.kind = .slice then pure [.val s.velem] else pure [v]   -- expr.go:75-76: only a slice/array is expanded (arrays are not generated)
+      | _ => pure [v]
     else pure [v]
 
 /-- when.go:123 `(*When).In` → matcher.go:157 `newContainsMatch` → expr.go:71 `InExpr.Resolve`: one `ToExpr` per argument,
